@@ -184,11 +184,7 @@ def rule_pad_structure(ctx, crate, rule="R-PAD-STRUCTURE"):
                     ok = True
     ctx.check(ok, rule, "untruncated-when-not-requested", b.name, K.fn_loc(b), "without `!` over-wide content is written whole",
               "over-wide content is shortened although truncation was not requested (or never written whole)", cfg)
-    # padding is written with spaces around exactly one write of the content
-    reps = [r for r in K.repeated_writes(crate, b) if const_val(r["call"].args[1]) == " "]
-    singles = [c for c in b.calls(r"std::fmt::Write::write_char", r"std::fmt::Formatter::<'a>::write_char") if const_val(c.args[1]) == " " and not b.in_loop(c.bb)]
-    ctx.check(len(reps) >= 2 and not singles, rule, "pads-are-spaces", b.name, K.fn_loc(b),
-              "left and right padding are counted repetitions of ' '", "padding is not written as counted repetitions of spaces on both sides", cfg)
+    # (what is written around the content, how many and on which side: R-TRUNC-CONSERVES `pads=diff` / `pad-side`)
 
 
 def rule_wide_msg(ctx, crate, rule="R-WIDE-MSG"):
@@ -225,8 +221,15 @@ def rule_wide_msg(ctx, crate, rule="R-WIDE-MSG"):
         wsl = b.slice_args(c, [2])
         ok = wsl.has_call(r"console::measure_text_width") and wsl.has_call(r"core::num::<impl usize>::saturating_sub")
         ctx.check(ok, rule, "wide-bar-width", b.name, c.loc(), "wide_bar is as wide as the columns left on the line", "wide_bar's width is not the columns left on the line", cfg)
-    # format_state: a placeholder with a width goes through PaddedStringDisplay with that width/align/truncate
+    rule_placeholder_fields_forwarded(ctx, crate, rule)
+
+
+def rule_placeholder_fields_forwarded(ctx, crate, rule="R-PLACEHOLDER-FIELDS-FORWARDED"):
+    """format_state: a placeholder with a width goes through PaddedStringDisplay with that width/align/truncate (shared with C10:
+    what the template declared is what is rendered)."""
+    cfg = crate.config
     fs = crate.body("style::ProgressStyle::format_state")
+    n = 0
     if fs:
         for (cb, i, j, s) in K.constructions(crate, PSD, bodies=[fs]):
             rv = s["rv"]
@@ -237,6 +240,8 @@ def rule_wide_msg(ctx, crate, rule="R-WIDE-MSG"):
             ctx.check(ok, rule, "placeholder-fields-forwarded", fs.name, "%s:%d" % (fs.file, s.get("line", 0)),
                       "width, alignment and truncate flag of the placeholder are the ones the template specified",
                       "the padded field does not use the placeholder's own width/alignment/truncate", cfg)
+            n += 1
+    ctx.floor(rule, n, 1, cfg, "padded fields built in format_state")
 
 
 def rule_width_always_applied(ctx, crate, rule="R-WIDTH-ALWAYS-APPLIED"):
@@ -357,6 +362,68 @@ def rule_width_parsed_exact(ctx, crate, rule="R-WIDTH-PARSED-EXACT"):
     ctx.floor(rule, n, 1, cfg, "stores to a placeholder's width in the parser")
 
 
+def space_runs(crate, b):
+    """Runs of spaces written by b (padding), each with the number of spaces as a linear form (None when it cannot be
+    established): counted repetitions (`for _ in a..n`, `(a..n).try_for_each`) of ' ' or of an all-space constant, single
+    writes of an all-space constant, of a prefix `&SPACES[..k]` of one, or of `" ".repeat(k)`. `single` marks a write outside
+    a loop: it counts only when it is executed unconditionally (the caller checks that)."""
+    from .. import affine as A
+    out = []
+    WS = K.WRITE_FNS + (r"std::fmt::Formatter::<'a>::pad",)
+
+    def spaces_of(host, c):
+        """(per-write count form, is it spaces at all)"""
+        a = c.args[1] if len(c.args) > 1 else None
+        v = const_val(a) if isinstance(a, dict) else None
+        if isinstance(v, str) and v and not v.strip(" "):
+            return {1: len(v)}
+        cs = A.const_str_of(host, a, c.bb) if isinstance(a, dict) and a.get("k") != "const" else None
+        if cs is not None:
+            return {1: len(cs)} if cs and not cs.strip(" ") else None
+        if not isinstance(a, dict) or a.get("k") == "const":
+            return None
+        sl = host.slice(a, at=c.bb)
+        for k in sl.calls:
+            if k.matches(r"core::str::traits::<impl std::ops::Index<I> for str>::index", r"std::ops::Index::index", r"core::str::<impl str>::get") and len(k.args) >= 2:
+                base = A.const_str_of(host, k.args[0], k.bb)
+                if base is None or base.strip(" "):
+                    continue
+                rl = operand_local(k.args[1])
+                ds = [d for d in host.defs().get(rl, ()) if d["kind"] == "assign" and d["rv"]["k"] == "agg" and host.def_reaches(d, k.bb)] if rl is not None else []
+                if len(ds) == 1 and str(ds[0]["rv"].get("adt", "")).endswith("::RangeTo") and len(ds[0]["rv"]["ops"]) == 1:
+                    return A.linform(host, ds[0]["rv"]["ops"][0], ds[0]["bb"])
+                if len(ds) == 1 and str(ds[0]["rv"].get("adt", "")).endswith("::Range") and len(ds[0]["rv"]["ops"]) == 2:
+                    return A.add(A.linform(host, ds[0]["rv"]["ops"][1], ds[0]["bb"]), A.linform(host, ds[0]["rv"]["ops"][0], ds[0]["bb"]), -1)
+                return "?"
+            if k.matches(r"(alloc|std|core)::str::<impl str>::repeat") and len(k.args) >= 2:
+                base = A.const_str_of(host, k.args[0], k.bb)
+                if base is None or base.strip(" ") or not base:
+                    continue
+                return A.scale(A.linform(host, k.args[1], k.bb), len(base))
+        return None
+
+    seen = set()
+    for r in K.repeated_writes(crate, b):
+        c, host = r["call"], r["host"]
+        per = spaces_of(host, c)
+        if per is None:
+            continue
+        seen.add((id(host), c.bb))
+        cnt = None
+        if per != "?" and set(per) <= {1} and r["bound"] is not None:
+            trips = A.add(A.linform(b, r["bound"], r["range_bb"]), A.linform(b, r["start"], r["range_bb"]), -1)
+            cnt = A.fold_divrem(A.scale(trips, per.get(1, 0)))
+        out.append({"call": c, "site": r["site"], "count": cnt, "single": False})
+    for c in b.calls(*WS):
+        if (id(b), c.bb) in seen or b.in_loop(c.bb):
+            continue
+        per = spaces_of(b, c)
+        if per is None:
+            continue
+        out.append({"call": c, "site": c.bb, "count": None if per == "?" else per, "single": True})
+    return out
+
+
 def rule_trunc_keeps_width(ctx, crate, rule="R-TRUNC-CONSERVES"):
     """"exactly W columns are kept from the start, the end or the middle": in the truncating branch the slice bounds satisfy
     the conservation law  start + (len - end) = excess  for every alignment (affine value analysis: each bound is
@@ -381,7 +448,12 @@ def rule_trunc_keeps_width(ctx, crate, rule="R-TRUNC-CONSERVES"):
     # evaluated on the CFG specialised to one alignment (so tuples, ranges or structs built per arm or after the match,
     # in this function or in an inlined helper, all look the same)
     gets = [c for c in b.calls(r"core::str::<impl str>::get", r"core::str::traits::<impl std::ops::Index<I> for str>::index", r"std::ops::Index::index") if len(c.args) >= 2]
-    pads = [r for r in K.repeated_writes(crate, b) if const_val(r["call"].args[1]) == " "]
+    contents = [c for c in b.calls(*K.WRITE_FNS) if len(c.args) > 1 and b.slice_args(c, [1], through_calls=False).has_field("str", PSD)]
+    err_edges = set()
+    for k in b.calls(K.TRY_BRANCH):
+        te = K.try_edges(b, k)
+        if te:
+            err_edges.add((te[0], te[2]))
     for v in K.variant_names(crate, "style::Alignment") or []:
         R = K.variant_reach(b, crate, "style::Alignment", v)
         with b.restricted(R):
@@ -405,13 +477,47 @@ def rule_trunc_keeps_width(ctx, crate, rule="R-TRUNC-CONSERVES"):
                 ctx.check(bool(lens) and not res, rule, "cut=excess:%s" % v, b.name, c.loc(),
                           "%s truncation removes exactly the excess: start + (len - end) = columns - width" % v,
                           "%s truncation does not remove exactly the excess columns: start + (len - end) - excess = %s (the field keeps more or fewer than W columns)" % (v, A.show(res)), cfg)
-            here = [r for r in pads if r["site"] in R and r["bound"] is not None]
-            if len(here) == 2:
+            # the padded write of the content: the content write with runs of spaces around it
+            runs = space_runs(crate, b)
+            for cw in contents:
+                if cw.bb not in R:
+                    continue
+                after_bbs = b.reach([cw.target] if cw.target is not None else [], avoid_edges=err_edges) & R
+                before = [r for r in runs if r["site"] in R and cw.bb in b.reach_after(r["site"]) and r["site"] not in after_bbs]
+                after = [r for r in runs if r["site"] in R and r["site"] in after_bbs]
+                if not before and not after:
+                    continue
                 n += 1
-                fa = A.linform(b, here[0]["bound"], here[0]["range_bb"])
-                fb = A.linform(b, here[1]["bound"], here[1]["range_bb"])
-                res = A.add(A.add(fa, fb), diff, -1)
-                ctx.check(not res, rule, "pads=diff:%s" % v, b.name, here[0]["call"].loc(),
+                bad = []
+                for r in before:
+                    if r["count"] is None or (r["single"] and cw.bb in b.reach([0], avoid=[r["site"]], avoid_edges=err_edges)):
+                        bad.append(r)
+                rets = set(b.return_blocks())
+                for r in after:
+                    if r["count"] is None or (r["single"] and (b.reach([cw.target], avoid=[r["site"]], avoid_edges=err_edges) & rets)):
+                        bad.append(r)
+                if bad:
+                    ctx.bad(rule, "pads=diff:%s" % v, b.name, bad[0]["call"].loc(),
+                            "%s padding: the number of spaces written at this site is not established (a write that is executed only under a condition, or an unrecognised count)" % v, cfg)
+                    continue
+                sb_, sa_ = {}, {}
+                for r in before:
+                    sb_ = A.add(sb_, r["count"])
+                for r in after:
+                    sa_ = A.add(sa_, r["count"])
+                sb_, sa_ = A.fold_divrem(sb_), A.fold_divrem(sa_)
+                res = A.fold_divrem(A.add(A.add(sb_, sa_), diff, -1))
+                ctx.check(not res, rule, "pads=diff:%s" % v, b.name, cw.loc(),
                           "%s padding adds exactly the missing columns: left + right = width - columns" % v,
                           "%s padding does not add up to the missing columns: left + right - (width - columns) = %s" % (v, A.show(res)), cfg)
+                # ... on the side(s) the alignment chooses
+                half = [{(o, A.freeze(A.add(diff, {1: k} if k else {})), A.freeze({1: 2} if o == "div" else {1: 1})): 1} for o in ("div", "shr") for k in (0, 1)]
+                if v == "Left":
+                    ok, want = not sb_, "all of it after the content"
+                elif v == "Right":
+                    ok, want = not sa_, "all of it before the content"
+                else:
+                    ok, want = any(not A.add(x, h, -1) for x in (sb_, sa_) for h in half), "half of it on each side"
+                ctx.check(ok, rule, "pad-side:%s" % v, b.name, cw.loc(), "%s alignment puts %s" % (v, want),
+                          "%s alignment must put %s: before = %s, after = %s" % (v, want, A.show(sb_), A.show(sa_)), cfg)
     ctx.floor(rule, n, 6, cfg, "alignment arms (3 truncating, 3 padding)")
